@@ -127,6 +127,28 @@ func genC06(r *Rng, tier string, idx int) *Program {
 	p.Cfg.SnapshotRetentionMs = 24 * 3600 * 1000
 	p.Cfg.StepGapMs = []int64{500, 1000, 2500, 9000}[r.Intn(4)]
 	n := r.Range(8, 45)
+	if r.Chance(0.06) {
+		// long backlog: far more files wait for one compaction (or one upload
+		// pass) than any batch limit in the code, at one or two levels
+		p.Variant = "backlog"
+		small := Stmt{K: "ins", T: 0, Key: 0, N: 1, Sz: 20}
+		for round := r.Range(1, 2); round > 0; round-- {
+			l1Backlog := nl >= 2 && r.Chance(0.5) // many level-1 files waiting for level 2, else many level-0 files
+			for k := r.Range(60, 150); k > 0; k-- {
+				s := small
+				s.Key, s.Seed = r.Intn(300), r.Uint64()>>1
+				p.Ops = append(p.Ops, appOp(Step{K: "txn", Stmts: []Stmt{s}}), Op{Kind: PickOf(r, []string{"ls_sync_wait", "ls_sync_wait", "ls_sync"})})
+				if l1Backlog && r.Chance(0.9) {
+					p.Ops = append(p.Ops, Op{Kind: "ls_compact_raw", Level: 1})
+				}
+			}
+			p.Ops = append(p.Ops, Op{Kind: "ls_sync_wait"}, Op{Kind: "ls_compact_raw", Level: 1})
+			if nl >= 2 {
+				p.Ops = append(p.Ops, Op{Kind: "ls_compact_raw", Level: 2})
+			}
+		}
+		n = r.Range(2, 10)
+	}
 	for i := 0; i < n; i++ {
 		switch r.Pick([]int{30, 22, 30, 4, 4, 6, 4}) {
 		case 0:
